@@ -16,8 +16,8 @@ Lemma decode_n_S st n :
   let '(st1, out, log) := decode1 st in
   let '(st2, outs) := decode_n st1 n in (st2, (out, log) :: outs).
 Proof.
-  unfold decode_n. cbn [repeat run_history dstep].
-  destruct (decode1 st) as [[st1 out] log]. destruct (run_history st1 (repeat OpDecode n)). reflexivity.
+  unfold decode_n, decode1. cbn [repeat run_history]. unfold dstep, dstep_gen.
+  destruct (decode1_gen true st) as [[st1 out] log]. destruct (run_history st1 (repeat OpDecode n)). reflexivity.
 Qed.
 
 Lemma decode_n_0 st : decode_n st 0 = (st, []).
@@ -54,7 +54,7 @@ Lemma decode_n_1 st : decode_n st 1 = let '(st1, out, log) := decode1 st in (st1
 Proof. rewrite decode_n_S. destruct (decode1 st) as [[st1 out] log]. now rewrite decode_n_0. Qed.
 
 (* what Encode accepts and the decoder is configured for is a frame_ok message *)
-Lemma encoded_frame_ok mx m f : encode true m = Ok f -> len m <= max_stream_segments + 1 ->
+Lemma encoded_frame_ok mx m f : encode true m = Ok f -> len m <= max_stream_segments ->
   len f <= eff_max mx -> f = frame m /\ frame_ok mx m.
 Proof.
   intros He Hn Hl. destruct (encode_ok_segs_ok m f He) as [Hs H1].
@@ -65,7 +65,7 @@ Qed.
 
 Lemma encoded_frames mx : forall msgs frames,
   Forall2 (fun m f => encode true m = Ok f) msgs frames ->
-  Forall (fun m => len m <= max_stream_segments + 1) msgs ->
+  Forall (fun m => len m <= max_stream_segments) msgs ->
   Forall (fun f => len f <= eff_max mx) frames ->
   frames = map frame msgs /\ Forall (frame_ok mx) msgs.
 Proof.
@@ -82,7 +82,7 @@ Qed.
 Theorem decode_encode_stream : forall msgs frames cs hc bc ru mx,
   max_ok mx ->
   Forall2 (fun m f => encode true m = Ok f) msgs frames ->
-  Forall (fun m => len m <= max_stream_segments + 1) msgs ->
+  Forall (fun m => len m <= max_stream_segments) msgs ->
   Forall (fun f => len f <= eff_max mx) frames ->
   concat cs = concat frames ->
   exists st' outs,
